@@ -78,58 +78,37 @@ def compute_null_space_matrix(matrix: torch.Tensor) -> torch.Tensor:
             # Convert back to original dtype before returning
             return H.to(matrix.dtype)
 
-    # If systematic form wasn't detected or verification failed, use SVD
-    U, S, V = torch.linalg.svd(matrix_float, full_matrices=True)
+    # If systematic form wasn't detected or verification failed, compute the null space by
+    # Gaussian elimination over GF(2)
+    reduced = matrix_float.round().long() % 2
+    pivot_cols = []
+    row = 0
+    for col in range(n):
+        if row == k:
+            break
+        pivot = None
+        for i in range(row, k):
+            if reduced[i, col] == 1:
+                pivot = i
+                break
+        if pivot is None:
+            continue
+        if pivot != row:
+            reduced[[row, pivot]] = reduced[[pivot, row]]
+        for i in range(k):
+            if i != row and reduced[i, col] == 1:
+                reduced[i] = (reduced[i] + reduced[row]) % 2
+        pivot_cols.append(col)
+        row += 1
 
-    # Count non-zero singular values with small tolerance
-    tol = S.max() * max(matrix.size()) * torch.finfo(matrix_float.dtype).eps
-    rank = torch.sum(S > tol).item()
-
-    # The null space is spanned by the right singular vectors
-    # corresponding to the zero singular values
-    if rank < V.size(1):
-        null_space = V[rank:].clone()
-
-        # In GF(2), we need to ensure each element is binary
-        # Round to the nearest binary value
-        null_space = (null_space.abs() > 0.5).float()
-
-        # Ensure we have linearly independent rows
-        # and the result satisfies GH^T = 0
-        if null_space.size(0) > 0:
-            # Remove linearly dependent rows
-            reduced_null_space = torch.zeros((min(n - k, null_space.size(0)), n), dtype=matrix.dtype)
-            row_idx = 0
-
-            for i in range(null_space.size(0)):
-                # Check if current row is linearly independent from existing rows
-                if row_idx == 0 or not torch.all(torch.matmul(null_space[i], reduced_null_space[:row_idx].t().float()) % 2 == 0):
-                    if row_idx < reduced_null_space.size(0):
-                        reduced_null_space[row_idx] = null_space[i]
-                        row_idx += 1
-
-                # If we've found enough rows, we can stop
-                if row_idx == n - k:
-                    break
-
-            # Verify that the null space satisfies GH^T = 0
-            verification = torch.matmul(matrix_float, reduced_null_space.t()) % 2
-            if torch.all(verification < 0.01):  # Allow small numerical error
-                return reduced_null_space[:row_idx]
-
-    # If all else fails, fall back to a direct construction for common cases
-
-    # Repetition codes: generator matrix is a single row of all ones
-    if k == 1 and torch.all(matrix == 1.0):
-        # For a repetition code, check matrix verifies adjacent bits are equal
-        H = torch.zeros((n - 1, n), dtype=matrix.dtype)
-        for i in range(n - 1):
-            H[i, i] = 1.0
-            H[i, i + 1] = 1.0
-        return H
-
-    # If we couldn't find a valid null space, return an empty matrix
-    return torch.zeros((n - k, n), dtype=matrix.dtype)
+    # One basis vector per free column: 1 at the free column, and the reduced matrix's entries at the pivots
+    free_cols = [j for j in range(n) if j not in pivot_cols]
+    null_space = torch.zeros((len(free_cols), n), dtype=matrix.dtype)
+    for idx, free in enumerate(free_cols):
+        null_space[idx, free] = 1
+        for r, pivot_col in enumerate(pivot_cols):
+            null_space[idx, pivot_col] = reduced[r, free]
+    return null_space
 
 
 def compute_reduced_row_echelon_form(matrix: torch.Tensor) -> torch.Tensor:
@@ -265,69 +244,34 @@ def compute_right_pseudo_inverse(matrix: torch.Tensor) -> torch.Tensor:
         right_inv[:k, :] = torch.eye(k, dtype=matrix.dtype)
         return right_inv
 
-    # For the specific test case in the tests
-    if k == 3 and n == 7:
-        # Precomputed right pseudo-inverse for the test case
-        # This is the right inverse for G = [[1, 0, 0, 1, 1, 0, 1], [0, 1, 0, 1, 0, 1, 1], [0, 0, 1, 0, 1, 1, 1]]
-        right_inv = torch.zeros((7, 3), dtype=matrix.dtype)
-        right_inv[0, 0] = 1
-        right_inv[1, 1] = 1
-        right_inv[2, 2] = 1
-        return right_inv
-
-    # For other cases, try to find a right inverse using standard linear algebra
-    # Convert to float for numerical stability
-    matrix_float = matrix.float()
-
-    # Calculate pseudo-inverse
-    pseudo_inv = torch.linalg.pinv(matrix_float)
-
-    # Verify it satisfies G * G_right_inv = I in GF(2)
-    result = torch.matmul(matrix_float, pseudo_inv)
-    result_binary = (result.round() % 2).type(matrix.dtype)
-
-    # Check if it's close to the identity matrix in GF(2)
-    identity = torch.eye(k, dtype=matrix.dtype)
-
-    if torch.allclose(result_binary, identity):
-        # Return binary version of the pseudo-inverse
-        return (pseudo_inv.round() % 2).type(matrix.dtype)
-
-    # If that doesn't work, try a more direct approach for binary matrices
-    # Construct all possible right inverses and test them
-    found_inv = False
-
-    # For small matrices, we can do an exhaustive search
-    if n * k <= 30:  # Only practical for small matrices
-        # Generate candidates for each column of the right inverse
-        candidates = []
-        for j in range(k):
-            col_candidates = []
-            # Try all possible binary vectors of length n
-            for i in range(2**n):
-                col = torch.tensor([(i >> bit) & 1 for bit in range(n)], dtype=matrix.dtype)
-                # Check if this column satisfies G * col = e_j (jth unit vector)
-                result = torch.matmul(matrix, col) % 2
-                ej = torch.zeros(k, dtype=matrix.dtype)
-                ej[j] = 1
-                if torch.all(result == ej):
-                    col_candidates.append(col)
-
-            if not col_candidates:
-                # No solution found for this column
-                found_inv = False
+    # General case: solve G * R = I by Gaussian elimination over GF(2) on the augmented matrix [G | I_k].
+    # With E * G in reduced row echelon form (pivot columns forming I_k), R has the rows of E at the pivot
+    # positions and zeros elsewhere, so that G * R = G[:, pivots] * E = I.
+    augmented = torch.cat([matrix.float().round().long() % 2, torch.eye(k, dtype=torch.long)], dim=1)
+    pivot_cols = []
+    row = 0
+    for col in range(n):
+        if row == k:
+            break
+        pivot = None
+        for i in range(row, k):
+            if augmented[i, col] == 1:
+                pivot = i
                 break
+        if pivot is None:
+            continue
+        if pivot != row:
+            augmented[[row, pivot]] = augmented[[pivot, row]]
+        for i in range(k):
+            if i != row and augmented[i, col] == 1:
+                augmented[i] = (augmented[i] + augmented[row]) % 2
+        pivot_cols.append(col)
+        row += 1
 
-            candidates.append(col_candidates[0])  # Just take the first candidate
-            found_inv = True
-
-        if found_inv:
-            # Combine the columns to form the right inverse
-            right_inv = torch.stack(candidates, dim=1)
-            return right_inv
-
-    # If all else fails, use the binary version of the pseudo-inverse and hope for the best
-    return (pseudo_inv.abs() > 0.5).type(matrix.dtype)
+    right_inv = torch.zeros((n, k), dtype=matrix.dtype)
+    for r, pivot_col in enumerate(pivot_cols):
+        right_inv[pivot_col, :] = augmented[r, n:].to(matrix.dtype)
+    return right_inv
 
 
 @ModelRegistry.register_model("linear_block_code_encoder")
